@@ -9,10 +9,13 @@ for i in $COPIES; do
   : > $D/confirm.list
 done
 set -- "$@"
-n=$(echo $COPIES | wc -w); j=0
+# both seeds of one property share ONE seed worktree (<base>/<P>/repo): they must run one after the other in one copy
+n=$(echo $COPIES | wc -w); j=0; LASTP=""
 for pk in "$@"; do
+  P=${pk%%:*}
+  if [ "$P" != "$LASTP" ]; then j=$((j+1)); LASTP=$P; fi
   idx=$(( j % n + 1 )); i=$(echo $COPIES | cut -d' ' -f$idx)
-  echo "$pk" >> /tmp/r/$i/confirm.list; j=$((j+1))
+  echo "$pk" >> /tmp/r/$i/confirm.list
 done
 for i in $COPIES; do
   D=/tmp/r/$i
